@@ -6,6 +6,7 @@ import (
 	"net/url"
 	"time"
 
+	"github.com/buildbuildio/pebbles/common"
 	"github.com/buildbuildio/pebbles/requests"
 	"github.com/gobwas/ws"
 	"github.com/gobwas/ws/wsutil"
@@ -42,6 +43,7 @@ func (q *MultiOpQueryer) Subscribe(req *requests.Request, closeCh <-chan struct{
 		return err
 	}
 
+	vid := common.VerifNew("qsub")
 	errCh := make(chan error)
 	defer close(errCh)
 
@@ -49,7 +51,9 @@ func (q *MultiOpQueryer) Subscribe(req *requests.Request, closeCh <-chan struct{
 		defer func() {
 			recover()
 		}()
+		common.VerifPoint(vid, "sub.closer.wait")
 		<-closeCh
+		common.VerifPoint(vid, "sub.closer.close")
 		conn.Close()
 	}()
 
@@ -58,8 +62,10 @@ func (q *MultiOpQueryer) Subscribe(req *requests.Request, closeCh <-chan struct{
 			defer func() {
 				recover()
 			}()
+			common.VerifPoint(vid, "sub.reader.exit")
 			conn.Close()
 			// indicate that it's done
+			common.VerifPoint(vid, "sub.reader.exit.nil")
 			resCh <- nil
 		}()
 
@@ -96,6 +102,7 @@ func (q *MultiOpQueryer) Subscribe(req *requests.Request, closeCh <-chan struct{
 		errCh <- nil
 
 		for {
+			common.VerifPoint(vid, "sub.reader.read")
 			msg, err := wsutil.ReadServerText(conn)
 			if err != nil {
 				return
@@ -121,7 +128,9 @@ func (q *MultiOpQueryer) Subscribe(req *requests.Request, closeCh <-chan struct{
 				requests.SubError:
 				return
 			case requests.SubData:
+				common.VerifPoint(vid, "sub.reader.send")
 				resCh <- serverResp.Payload
+				common.VerifPoint(vid, "sub.reader.sent")
 			}
 		}
 	}()
